@@ -210,9 +210,30 @@ func main() {
 	fmt.Println(string(b))
 }
 
+// stopOrReport closes the server; a Close that does not return (e.g. fragment.Close waiting for a
+// snapshot that will never be signalled) is reported as a deadlock instead of hanging the check.
+func stopOrReport(s *srvT, res *result) {
+	done := make(chan struct{})
+	go func() { s.stop(); close(done) }()
+	select {
+	case <-done:
+	case <-time.After(120 * time.Second):
+		buf := make([]byte, 1<<20)
+		n := runtime.Stack(buf, true)
+		if res.Deadlock == "" {
+			res.Deadlock = "server Close does not return: " + blockedSummary(string(buf[:n]))
+		}
+	}
+}
+
 func runRound(seed int64, round int, res *result, count func(string)) {
 	s := start()
-	defer s.stop()
+	stopped := false
+	defer func() {
+		if !stopped {
+			stopOrReport(s, res)
+		}
+	}()
 	ctx := context.Background()
 	api := s.API
 	must := func(err error) {
@@ -238,10 +259,14 @@ func runRound(seed int64, round int, res *result, count func(string)) {
 		must(err)
 	}
 	h := s.Server.Holder()
+	// a low MaxOpN makes the background snapshot QUEUE (snapshotQueueWorker) rewrite the fragments
+	// while other requests touch them, and sends every value import down the large path
+	// (enqueueSnapshot + unprotectedAwaitSnapshot); s keeps the default in even rounds
+	for _, f := range []string{"l", "m", "v"} {
+		pilosa.VerifC29SetMaxOpN(h, "i", f, 3)
+	}
 	if round%2 == 1 {
-		for _, f := range []string{"s", "l", "m", "v"} {
-			pilosa.VerifC29SetMaxOpN(h, "i", f, 5)
-		}
+		pilosa.VerifC29SetMaxOpN(h, "i", "s", 5)
 	}
 	hist := &history{}
 	var torn int64
@@ -420,6 +445,7 @@ wait:
 				buf := make([]byte, 1<<20)
 				n := runtime.Stack(buf, true)
 				res.Deadlock = blockedSummary(string(buf[:n]))
+				stopped = true
 				return // leak the server: its goroutines are stuck
 			}
 		}
